@@ -488,7 +488,9 @@ fn execute(plan: &Value, w: &World, cfg: &Cfg, slot: usize) -> Outcome {
                 push("request-wrong:unexpected-authorization", "an Authorization header was sent without --authorization".into());
             }
         }
-        let success_expected = plan::success_expected(&built.meaning) && !sink_full;
+        // replies a client may accept or reject: judged as a success when the tool reports one,
+        // as a failure when it reports one
+        let success_expected = plan::success_expected(&built.meaning) && !sink_full && (exit_ok || !built.either_ok);
         if sink_full && plan::success_expected(&built.meaning) && exit_ok {
             push("write-failure-not-reported", "the output target accepts no bytes (/dev/full) but the exit status is 0: the JSON cannot have been written".into());
         }
